@@ -77,6 +77,12 @@ Theorem c10_recv_body_read : forall f input cap f' i o,
   recv_body_read f input cap = Ok (f', i, o) -> i_reasons f' = i_reasons f.
 Proof. intros f input cap f' i o H. exact (proj1 (recv_body_read_keeps f input cap f' i o H)). Qed.
 
+(** A failed read leaves the flow as [recv_body_after_err f input cap] (the chunked decoder keeps the
+    state it had reached; that is what the history theorems below continue from): same reasons. *)
+Theorem c10_recv_body_read_failed : forall f input cap,
+  i_reasons (recv_body_after_err f input cap) = i_reasons f.
+Proof. intros f input cap. exact (proj1 (recv_body_after_err_keeps f input cap)). Qed.
+
 Theorem c10_recv_body_stop : forall f b f',
   recv_body_stop f b = Ok f' -> i_reasons f' = i_reasons f.
 Proof. intros f b f' H. exact (proj1 (recv_body_stop_keeps f b f' H)). Qed.
@@ -288,6 +294,7 @@ Print Assumptions c10_send_body_write.
 Print Assumptions c10_send_body_direct.
 Print Assumptions c10_send_body_proceed.
 Print Assumptions c10_recv_body_read.
+Print Assumptions c10_recv_body_read_failed.
 Print Assumptions c10_recv_body_stop.
 Print Assumptions c10_recv_body_proceed.
 Print Assumptions c10_try_read_100.
